@@ -735,7 +735,9 @@ def _run(ctx, api, res, deep):
         other = rng.choice([f for f in scalar_fams if not f.startswith("helmholtz")])
         units = [(hl, s), (other, "p1" if s == "p0" else rng.choice(["p0", "p1"]))]
         far_units = [(FAR_OF[hl], s)]
-        maxwell = rng.choice([["maxwell-e", "maxwell-m"], ["maxwell-e", "maxwell-far-e"], ["maxwell-m", "maxwell-far-m"]])
+        # each of the four Maxwell kernels has its own accumulation loop: all four in every run (seed C08-b, a conjugation
+        # slip in the electric far field only, was missed by a run that had drawn another pair)
+        maxwell = ["maxwell-e", "maxwell-m", "maxwell-far-e", "maxwell-far-m"]
     focus = [f for f in os.environ.get("VERIF_ORACLE_FOCUS", "").split(",") if f]
     if focus and not thorough:  # for mutation experiments: force the units of the quick tier, e.g. "helmholtz-dl/p1,ff-dl/p1,maxwell-e"
         units = [tuple(f.split("/")) for f in focus if "/" in f and not f.startswith("ff-")]
